@@ -10,10 +10,13 @@
 #include <deque>
 #include <algorithm>
 #include <string.h>
+#include <math.h>
 
 namespace {
 
-enum { OP_SCHED_NOW = 1, OP_SCHED_FUT, OP_CANCEL, OP_RUN_ALL, OP_HAS_TASKS, OP_CLEANUP_REINIT, OP_ADVANCE, OP_BEHAV };
+enum { OP_SCHED_NOW = 1, OP_SCHED_FUT, OP_CANCEL, OP_RUN_ALL, OP_HAS_TASKS, OP_CLEANUP_REINIT, OP_ADVANCE, OP_BEHAV, OP_BULK_SCHED, OP_BULK_CANCEL };
+// OP_BULK_SCHED: a=first task, b=count, c=pattern (0 one time now+d, 1 increasing, 2 decreasing, 3 scattered over [now, now+d], 4 run-now), d=delta
+// OP_BULK_CANCEL: a=first task, b=count (model-pending ones only)
 // time modes for OP_SCHED_FUT (b) : 0 abs 0, 1 now-delta, 2 now, 3 now+delta, 4 UINT64_MAX, 5 same as the last scheduled time
 // time modes for OP_RUN_ALL (a): 0 clock now, 1 repeat last run time, 2 step back by delta, 3 zero, 4 UINT64_MAX, 5 advance by delta then now
 // behaviour actions (OP_BEHAV: a=task, b=status 0 run/1 canceled, c=action, d=arg)
@@ -298,6 +301,30 @@ RunInfo run(const sim::Plan &plan) {
             case OP_HAS_TASKS: check_has_tasks(c, "has_tasks op"); break;
             case OP_CLEANUP_REINIT: do_cleanup_reinit(c, true); break;
             case OP_ADVANCE: c.now += (uint64_t)op.a; break;
+            case OP_BULK_SCHED: {
+                size_t n = c.tasks.size(), cnt = (size_t)op.b > n ? n : (size_t)op.b;
+                uint64_t d = (uint64_t)op.d, x = sim::mix64((uint64_t)op.a, (uint64_t)op.b);
+                size_t pend_before = 0;
+                for (size_t i = 0; i < cnt; i++) {
+                    TaskM &t = c.tasks[((size_t)op.a + i) % n];
+                    if (t.state != IDLE) { pend_before++; continue; }
+                    switch (op.c) {
+                        case 0: do_sched_fut(c, t, c.now + d, false); break;
+                        case 1: do_sched_fut(c, t, c.now + i, false); break;
+                        case 2: do_sched_fut(c, t, c.now + (cnt - i), false); break;
+                        case 3: x = sim::mix64(x, i); do_sched_fut(c, t, c.now + (d ? x % (d + 1) : 0), false); break;
+                        default: do_sched_now(c, t);
+                    }
+                }
+                if (cnt - pend_before > 100000) sim::probe("bulk_schedule_over_100000_tasks");
+                else if (cnt - pend_before > 10000) sim::probe("bulk_schedule_over_10000_tasks");
+                break;
+            }
+            case OP_BULK_CANCEL: {
+                size_t n = c.tasks.size(), cnt = (size_t)op.b > n ? n : (size_t)op.b;
+                for (size_t i = 0; i < cnt; i++) do_cancel(c, c.tasks[((size_t)op.a + i) % n]);
+                break;
+            }
         }
         if (!aws_task_scheduler_is_valid(&c.sched)) sim::violation("c07:invalid", "scheduler validity predicate false after op %d", op.kind);
         check_has_tasks(c, "after op");
@@ -329,13 +356,17 @@ void gen(uint64_t seed, int tier, sim::Plan &p) {
     int nt = (int)r.range(1, r.chance(0.3) ? 24 : 8);
     bool many = r.chance(tier ? 0.04 : 0.02); // scale run: the timed queue has to grow several times (7 -> 14 -> ... )
     if (many) nt = (int)r.range(100, 300);
+    // mega run: tens to hundreds of thousands of tasks pending at once (the queue's backing store passes every growth step up to MiBs),
+    // scheduled and cancelled with compact bulk operations so that the plan stays a handful of operations
+    bool mega = !many && r.chance(tier ? 0.0012 : 0.0006);
+    if (mega) { double e = (double)r.range(0, 1000) / 1000.0; nt = (int)(2000.0 * pow(150.0, e)); }
     p.cfg["ntasks"] = nt;
     p.cfg["max_resched"] = r.range(0, 3);
     p.cfg["alloc_realloc"] = r.chance(0.8);
     p.cfg["alloc_calloc"] = r.chance(0.8);
     double pf = r.pick(std::vector<double>{0, 0, 0.1, 0.5, 1.0});
     // behaviours
-    int nb = (int)r.range(0, nt * 2);
+    int nb = (int)r.range(0, mega ? 12 : nt * 2);
     if (r.chance(0.25)) nb = 0;
     for (int i = 0; i < nb; i++) {
         sim::Op b;
@@ -353,11 +384,20 @@ void gen(uint64_t seed, int tier, sim::Plan &p) {
     }
     int nops = (int)r.range(5, tier ? 150 : 60);
     if (many) nops = (int)r.range(300, 700);
+    if (mega) nops = (int)r.range(4, 24);
+    int bulk_at = mega ? (int)r.range(0, 3) : -1;
     static const std::vector<int64_t> deltas = {0, 1, 2, 7, 100, 1000, 1000000, 3600000000000ll};
     for (int i = 0; i < nops; i++) {
         sim::Op op;
         op.thr = 0;
         uint64_t k = r.below(100);
+        if (mega && (i == bulk_at || r.chance(0.12))) {
+            bool first = i == bulk_at;
+            op.kind = first || r.chance(0.5) ? OP_BULK_SCHED : OP_BULK_CANCEL;
+            op.a = first ? 0 : r.range(0, nt - 1);
+            op.b = first ? r.range(nt - nt / 8, nt) : r.range(1, nt);
+            if (op.kind == OP_BULK_SCHED) { op.c = r.pick(std::vector<int64_t>{0, 1, 2, 3, 3, 4}); op.d = r.pick(deltas); }
+        } else
         if (k < 15) { op.kind = OP_SCHED_NOW; op.a = r.range(0, nt - 1); }
         else if (k < 50) {
             op.kind = OP_SCHED_FUT; op.a = r.range(0, nt - 1);
@@ -390,6 +430,12 @@ std::string op_text(const sim::Op &op) {
         case OP_HAS_TASKS: snprintf(b, sizeof b, "has_tasks()"); break;
         case OP_CLEANUP_REINIT: snprintf(b, sizeof b, "clean_up(); init()"); break;
         case OP_ADVANCE: snprintf(b, sizeof b, "clock += %lld", (long long)op.a); break;
+        case OP_BULK_SCHED: {
+            static const char *pt[] = {"all at now+d", "increasing times", "decreasing times", "scattered over [now, now+d]", "run-now"};
+            snprintf(b, sizeof b, "bulk schedule %lld tasks from task %lld, %s, d=%lld", (long long)op.b, (long long)op.a, pt[op.c % 5], (long long)op.d);
+            break;
+        }
+        case OP_BULK_CANCEL: snprintf(b, sizeof b, "bulk cancel %lld tasks from task %lld", (long long)op.b, (long long)op.a); break;
         case OP_BEHAV: snprintf(b, sizeof b, "behaviour: task %lld on %s does %s(arg %lld)", (long long)op.a, op.b ? "CANCELED" : "RUN", ba[op.c % 7], (long long)op.d); break;
         default: snprintf(b, sizeof b, "?");
     }
@@ -400,7 +446,7 @@ std::string op_text(const sim::Op &op) {
 
 extern const Harness H_C07 = {
     "C07", "task scheduler exactly once, never early, in time order", gen, run, op_text,
-    "Plans: 1-24 tasks, 5-150 operations from schedule_now / schedule_future (past, equal, future, 0, UINT64_MAX, duplicate times) / cancel "
+    "Plans: 1-24 tasks (2% 100-300; 0.06% 'mega' plans with 2000-300000 tasks scheduled and cancelled by bulk operations so that every growth step of the timed queue's backing store up to MiBs is passed), 5-150 operations from schedule_now / schedule_future (past, equal, future, 0, UINT64_MAX, duplicate times) / cancel "
     "(only of model-pending tasks) / run_all(now) with the simulated clock and clock faults (repeat, step back, 0, UINT64_MAX) / has_tasks / "
     "clean_up+re-init; per-task behaviours executed inside the task function on RUN or CANCELED (schedule others, re-schedule self, cancel a "
     "pending task incl. one already in the running batch, schedule-then-cancel); injected aws_priority_queue_push_ref failures force the "
